@@ -8,7 +8,7 @@ from catalog import ALL_KINDS, AVERAGES, C05_KINDS, C06_KINDS, IndCfg
 from streams import compositions, make_stream
 
 STYLES = ["mixed", "walk", "decimal", "mixed", "walk"]
-DEGENERATE = ["flat", "up", "down", "zero_vol", "mixed"]
+DEGENERATE = ["flat", "up", "down", "zero_vol", "mixed", "inside", "repeat", "inside_then_walk"]
 TFS = {"S": ["S5", "S10", "S30"], "T": ["T1", "T5", "T15"], "H": ["H1", "H4"], "D": ["D1", "D2"]}
 
 
@@ -121,7 +121,7 @@ CHAIN_SOURCES = [
 ]
 
 
-def fam_chain(rng, pid, count, targets=("SMA", "EMA", "RMA", "WMA", "HMA")):
+def fam_chain(rng, pid, count, targets=("SMA", "EMA", "RMA", "WMA", "HMA"), reverse=False, twins=("batch",)):
     """an average whose input is another indicator that begins late (C04 position independence)"""
     out = []
     for t in range(count):
@@ -130,8 +130,17 @@ def fam_chain(rng, pid, count, targets=("SMA", "EMA", "RMA", "WMA", "HMA")):
         live = src.build(standalone=False).name
         tgt = rand_cfg(rng, targets[t % len(targets)], inp=live + fld, rv=rng.choice([4, 4, 2, 5]))
         tgt.extra = {"name_suffix": "late"}   # keep clear of the source's default-named helpers (C13's topic)
-        out.append(hex_scenario(rng, f"{pid}/chain/{skind}>{tgt.kind}/{t}", "chain", [src, tgt],
-                                rng.randint(16, 24), rng.choice(["mixed", "walk", "decimal"])))
+        sc = hex_scenario(rng, f"{pid}/chain{'R' if reverse else ''}/{skind}>{tgt.kind}/{t}", "chain",
+                          [tgt, src] if reverse else [src, tgt],
+                          rng.randint(16, 24), rng.choice(["mixed", "walk", "decimal"]), twins=twins,
+                          tf=None)
+        if reverse:
+            # the consumer is calculated before its source: what it then shows is not a property's
+            # business, only that it never changes afterwards (C02)
+            sc["clause_props"] = {"value": [], "gap": [], "struct": [], "batch": []}
+            sc["mute"] = ["value", "gap", "round", "nonfinite", "struct_range", "struct_between",
+                          "struct_order", "struct_identity", "struct_step", "struct_type"]
+        out.append(sc)
     return out
 
 
@@ -209,7 +218,9 @@ def scenarios(pid, tier, rng):
                 + fam_chain(rng, pid, k(40, 200)) + fam_amorph(rng, pid, k(40, 240)))
     if pid == "C02":
         return (fam_kinds(rng, pid, ALL_KINDS, k(260, 1500), twins=("longer",), tf_share=0.5)
-                + fam_amorph(rng, pid, k(40, 240), twins=("longer",)))
+                + fam_amorph(rng, pid, k(40, 240), twins=("longer",))
+                + fam_chain(rng, pid, k(40, 240), targets=("STDEV", "TSI", "SMA", "EMA", "RSI", "BBANDS", "ROC"),
+                            reverse=True, twins=()))
     if pid == "C03":
         return fam_manager(rng, pid, k(300, 2000))
     if pid == "C12":
@@ -230,7 +241,7 @@ def scenarios(pid, tier, rng):
     if pid == "C17":
         return fam_movement(rng, pid, k(140, 900)) + fam_patterns(rng, pid, k(140, 900))
     if pid == "C14":
-        return fam_maintenance(rng, pid, k(240, 1500))
+        return fam_maintenance(rng, pid, k(220, 1400)) + fam_readd(rng, pid, k(40, 300))
     if pid == "C13":
         return fam_interference(rng, pid, k(90, 1000))
     if pid == "C19":
@@ -365,6 +376,41 @@ def fam_maintenance(rng, pid, count):
                   "clause_props": {"exc": ["C14"], "batch": ["C14"], "value": ["C14"]}}
             ops = MAINT_OPS
         out.append(grow_program(rng, sc, n, rng.randint(5, 10), ops))
+    return out
+
+
+def fam_readd(rng, pid, count):
+    """an indicator that is alone on its timeframe is removed, candles keep arriving, then an
+    indicator on the same timeframe is registered again: it must end with the batch readings"""
+    out = []
+    for t in range(count):
+        tf = pick_tf(rng)
+        a = rand_cfg(rng, rng.choice(SIMPLE))
+        b = rand_cfg(rng, rng.choice(SIMPLE + NESTED), tf=tf)
+        c = rand_cfg(rng, rng.choice(SIMPLE + NESTED), tf=tf) if rng.random() < 0.5 else b.clone()
+        n = rng.randint(18, 26)
+        names = [x.build(standalone=False).name for x in (a, b)]
+        cname = c.build(standalone=False).name
+        if names[0] == names[1] or cname == names[0]:
+            continue
+        if cname == names[1]:
+            c = b.clone()          # same name must mean the same indicator
+        cuts = sorted(rng.sample(range(2, n - 2), 3))
+        prog = [("new", rng.choice([0, 2])), ("append", rng.choice([1, 3]), cuts[0]) ]
+        prog[1] = ("append", prog[0][1] + 1, cuts[0])
+        prog += [("remove", names[1]), ("append", cuts[0] + 1, cuts[1])]
+        if rng.random() < 0.5:
+            prog.append(("append", cuts[1] + 1, cuts[2]))
+            pos = cuts[2]
+        else:
+            pos = cuts[1]
+        prog += [("add", 2, rng.choice(["obj", "dict"])), ("append", pos + 1, n), ("calculate", "")]
+        regular = tf_regular(rng, tf)
+        out.append({"id": f"{pid}/readd/{tf}/{t}", "fam": "maint", "obj": "hex", "inds": [a, b], "late": [c],
+                    "hex": {}, "stream": make_stream(rng, n, "mixed", tf=tf, regular=regular), "prog": prog,
+                    "twins": ["final_batch"], "member_forms": ["obj", "obj"],
+                    "clause_props": {"exc": ["C14"], "batch": ["C14"], "value": ["C14"], "stage": ["C14"],
+                                     "def": ["C14"]}})
     return out
 
 
